@@ -12,7 +12,7 @@ PROPS_PATH = "B3/B3sum/Props12.lean"
 RULE = ("process-level runs of the real binary (root file = /repo/b3sum/src/main.rs, shim manifest) in a scratch directory: hashing cases "
         "over flag combinations of --keyed/--derive-key/--length/--seek/--no-mmap/--num-threads/--raw/--no-names/--tag, files around the "
         "mmap threshold, stdin, missing files, odd names; --check cases mixing good, stale, missing-file and malformed lines, LF/CRLF, "
-        "--quiet, several checkfiles; files whose mmap fails (/sys/kernel/btf/vmlinux, a 1.5 GiB sparse file under RLIMIT_AS = 1 GiB) hashed with and without --no-mmap; stdout and exit status compared with the prediction of the model's decision logic "
+        "--quiet, several checkfiles; checkfile lines of 3 KiB .. 64 KiB (existing files behind long ./././ paths, plain/tagged/escaped, and over-PATH_MAX entries built so that a reader cutting the line at 4096..65537 bytes would see a second, valid entry); files whose mmap fails (/sys/kernel/btf/vmlinux, a 1.5 GiB sparse file under RLIMIT_AS = 1 GiB) hashed with and without --no-mmap; stdout and exit status compared with the prediction of the model's decision logic "
         "(pure-Python restatement of B3/B3sum/Model.lean, itself diffed against the Lean driver on the P ops) with digests taken from "
         "the library through the driver; non-trivial = every case (each has its own argv/files); distinct = distinct argv+files")
 ASSUMPTIONS = ["clap's argument grammar is not modelled: only accepted flag combinations are generated",
@@ -24,8 +24,9 @@ NOT_PROVED = ["process-level behaviour (argument parsing by clap, stdout flushin
 class ProcStage:
     name = "process"
 
-    def __init__(self, cases):
+    def __init__(self, cases, extras=True):
         self.cases = cases
+        self.extras = extras
 
     def run(self, lean_exe):
         ok, drv, log = core.build_b3sum()
@@ -48,6 +49,8 @@ class ProcStage:
                                  impl_differs=True))
         # files whose mmap fails (the fallback path of update_mmap_rayon): the digest must equal the --no-mmap one
         import subprocess, tempfile, resource, shutil
+        if not self.extras:
+            return dict(evaluations=len(self.cases), distinct=distinct, hist=hist, samples=[], mismatches=mism)
         special = []
         if os.access("/sys/kernel/btf/vmlinux", os.R_OK):
             special.append(("/sys/kernel/btf/vmlinux", None))
